@@ -31,6 +31,13 @@ if COVER:
     os.environ["GOCOVERDIR"] = COVER
 EVID = os.path.join(ROOT, "evidence") if not os.environ.get("VERIF_RUNS") else os.path.join(RUNS, "evidence")
 NCPU = 16
+# On a machine that is already oversubscribed (several checks / builders at once) sixteen more coqc processes per
+# check only thrash memory; the worker count (never the verdict) adapts to the load at start-up. VERIF_COQ_JOBS overrides.
+try:
+    _la = os.getloadavg()[0]
+    NCPU = int(os.environ.get("VERIF_COQ_JOBS", "0")) or (16 if _la < 24 else (6 if _la < 64 else 3))
+except (OSError, ValueError):
+    NCPU = 16
 
 GATE_RE = re.compile(
     r"\b(Admitted|admit|Axiom|Axioms|Parameter|Parameters|Conjecture|Conjectures|Admit Obligations)\b"
